@@ -236,3 +236,68 @@ Proof.
   pose proof (last_step_adm c hist i HH G) as Ha. destruct (All3_length _ _ _ _ Ha) as [_ Hlx].
   apply spec_energy_discretisation; [exact Hv|symmetry; exact Hl|symmetry; exact Hlx].
 Qed.
+
+(* ================================================================== the free-energy file (write_pmf) *)
+
+Lemma all_ix_ok nx : forall ix, In ix (all_ix nx) <-> index_ok nx ix = true.
+Proof.
+  induction nx as [|n r IH]; intros ix; cbn [all_ix index_ok].
+  - split.
+    + intros [<-|[]]. reflexivity.
+    + destruct ix; [left; reflexivity|discriminate].
+  - rewrite in_flat_map. split.
+    + intros (i & Hi & Hm). apply in_seq in Hi. apply in_map_iff in Hm. destruct Hm as (t & <- & Ht).
+      apply IH in Ht. rewrite Ht, andb_true_r. apply andb_true_intro. split; [apply Z.leb_le|apply Z.ltb_lt]; lia.
+    + destruct ix as [|i t]; [discriminate|]. intros H. apply andb_prop in H. destruct H as [H Ht].
+      apply andb_prop in H. destruct H as [H0 H1]. apply Z.leb_le in H0. apply Z.ltb_lt in H1.
+      exists (Z.to_nat i). split; [apply in_seq; lia|]. apply in_map_iff. exists t. split; [|apply IH; exact Ht].
+      f_equal. lia.
+Qed.
+
+Lemma fold_max_props {A} (f : A -> R) (l : list A) : forall m0,
+  let r := fold_left (fun m a => if Rltb m (f a) then f a else m) l m0 in
+  m0 <= r /\ (forall a, In a l -> f a <= r) /\ (r = m0 \/ exists a, In a l /\ r = f a).
+Proof.
+  induction l as [|a l IH]; intros m0; cbn [fold_left].
+  - split; [lra|]. split; [intros a []|left; reflexivity].
+  - destruct (IH (if Rltb m0 (f a) then f a else m0)) as (H1 & H2 & H3).
+    destruct (Rltb m0 (f a)) eqn:E.
+    + apply Rltb_true in E. split; [lra|]. split.
+      * intros b [<-|Hb]; [exact H1|apply H2; exact Hb].
+      * right. destruct H3 as [H3|(b & Hb & H3)]; [exists a; split; [left; reflexivity|exact H3]|exists b; split; [right; exact Hb|exact H3]].
+    + apply Rltb_false in E. split; [exact H1|]. split.
+      * intros b [<-|Hb]; [lra|apply H2; exact Hb].
+      * destruct H3 as [H3|(b & Hb & H3)]; [left; exact H3|right; exists b; split; [right; exact Hb|exact H3]].
+Qed.
+
+(* the value written for bin ix: (M - E(ix)) times the well-tempered factor, M the largest bin of the energy grid,
+   E(ix) the sum of the tabulated hills at the centre of the bin *)
+Lemma pmf_holds c hist temp ix : cfg_ok c -> history_ok c hist -> c_use_grids c = true ->
+  index_ok (gsizes (s_geom (spec_run c hist))) ix = true ->
+  let E := fun jx => Esum (c_vars c) (s_tab (spec_run c hist)) (centre Rops (c_vars c) (s_geom (spec_run c hist)) jx) in
+  exists M,
+    (forall jx, index_ok (gsizes (s_geom (spec_run c hist))) jx = true -> E jx <= M) /\
+    (exists jx, index_ok (gsizes (s_geom (spec_run c hist))) jx = true /\ M = E jx) /\
+    pmf_value Rops c (final_state Rops c hist) temp ix =
+      (M - E ix) * (if c_wt c then (c_bias_temp c + temp) / c_bias_temp c else 1).
+Proof.
+  intros Hok HH G Hix E.
+  destruct (run_inv c hist Hok HH) as [[_ _ _ Hgeom _ He _ _ _ _ _] _].
+  set (m := final_state Rops c hist) in *. set (s := spec_run c hist) in *.
+  unfold pmf_value. rewrite Hgeom. set (ixs := all_ix (gsizes (s_geom s))).
+  assert (Hin : In ix ixs) by (apply all_ix_ok; exact Hix).
+  unfold grid_max. destruct ixs as [|ix0 r] eqn:Ei; [destruct Hin|].
+  cbn [nltb Rops].
+  pose proof (fold_max_props (st_e m) (ix0 :: r) (st_e m ix0)) as (P1 & P2 & P3). cbv zeta in P1, P2, P3.
+  set (M := fold_left (fun m0 a => if Rltb m0 (st_e m a) then st_e m a else m0) (ix0 :: r) (st_e m ix0)) in *.
+  assert (Hval : forall jx, In jx (ix0 :: r) -> st_e m jx = E jx).
+  { intros jx Hj. apply He. apply all_ix_ok. fold ixs. rewrite Ei. exact Hj. }
+  exists M. split; [|split].
+  - intros jx Hj. rewrite <- Hval by (rewrite <- Ei; apply all_ix_ok; exact Hj).
+    apply P2. rewrite <- Ei. apply all_ix_ok. exact Hj.
+  - destruct P3 as [P3|(a & Ha & P3)].
+    + exists ix0. split; [apply all_ix_ok; fold ixs; rewrite Ei; left; reflexivity|].
+      rewrite P3. apply Hval. left. reflexivity.
+    + exists a. split; [apply all_ix_ok; fold ixs; rewrite Ei; exact Ha|]. rewrite P3. apply Hval. exact Ha.
+  - rewrite (Hval ix Hin). cbn [nmul nadd nneg ndiv n1 Rops]. destruct (c_wt c); ring.
+Qed.
